@@ -378,6 +378,14 @@ func (cp *CollectingProcess) decodeDataSet(dataBuffer *bytes.Buffer, obsDomainID
 		// Decoding such records would never consume any input.
 		return nil, fmt.Errorf("template %d with obsDomainID %d defines zero-length data records", templateID, obsDomainID)
 	}
+	// Fields of length zero take no input, so a template with many of them lets every byte
+	// of a data set expand into that many elements. Refuse to do work which is out of all
+	// proportion to the size of the set (without such fields there is at most one field
+	// per byte, and a message has at most 65535 bytes).
+	const maxFieldsPerDataSet = 1 << 20
+	if numFields := (dataBuffer.Len() / minRecordLength) * len(template); numFields > maxFieldsPerDataSet {
+		return nil, fmt.Errorf("data set for template %d with obsDomainID %d would decode to %d fields, more than the %d supported", templateID, obsDomainID, numFields, maxFieldsPerDataSet)
+	}
 
 	for dataBuffer.Len() >= minRecordLength {
 		elements := make([]entities.InfoElementWithValue, 0, len(template)+cp.numExtraElements)
